@@ -593,7 +593,8 @@ pub fn graph_replay<S: Sut>(gen_path: &str, out: &mut Out, hist: &mut Out, mout:
                     // M-level comparison (diagnostic)
                     let ms = if panicked { Value::Null } else { sut.mstate() };
                     let res_ok = t["res"].is_null() || rec["res"] == t["res"] || rec["mres"] == t["res"];
-                    if panicked || ms != t["post"] || !res_ok {
+                    let spec_panics = t["res"] == "panic";
+                    if (panicked != spec_panics) || (!panicked && (ms != t["post"] || !res_ok)) {
                         st.drift += 1;
                         full.insert("drift".into(), json!(true));
                         if st.first_drift.len() < 5 {
@@ -720,7 +721,7 @@ pub fn graph_replay<S: Sut>(gen_path: &str, out: &mut Out, hist: &mut Out, mout:
             full.insert("other".into(), json!(nb.hid));
             full.insert("op".into(), op.clone());
             let mres = if rec["mres"].is_null() { rec["res"].clone() } else { rec["mres"].clone() };
-            let post = if rec["res"] == "panic" { Value::Null } else { sut.mstate() };
+            let post = if rec["res"] == "panic" { json!("none") } else { sut.mstate() };
             mout.put(&json!({"k":"m","tid":tid,"op":op,"pre":na.sut.mstate(),"b":b_before,"post":post,"res":mres}));
             merge_into(&mut full, rec);
             put_rec(out, &mut last_uid, &sut, Value::Object(full));
@@ -776,7 +777,7 @@ pub fn run_scenario<S: Sut>(sc: &Value, out: &mut Out, mut mout: Option<&mut Out
         if let Some(m) = mout.as_deref_mut() {
             let mres = if rec["mres"].is_null() { rec["res"].clone() } else { rec["mres"].clone() };
             let mut mr = json!({"k":"m","tid":tid,"obj":name,"op":stp["op"],"res":mres,"pre":mpre,
-                            "post": if rec["res"] == "panic" { Value::Null } else { sut.mstate() }});
+                            "post": if rec["res"] == "panic" { json!("none") } else { sut.mstate() }});
             if let Some(o) = &other {
                 mr["b"] = o.mstate();
             }
